@@ -54,6 +54,8 @@ type interpreter struct {
 	forceInit          *ssa.Function
 	regexes            map[*value]*regexHandle
 	sch                *sched
+	protoSeq           int
+	protoMsgs          map[string]iface
 	nowHook            *value // harness clock cell (unix nanos), if the harness installed one
 	lastNow            value
 }
@@ -152,10 +154,10 @@ func (i *interpreter) global(fr *frame, g *ssa.Global) *value {
 var noInitPkgs = map[string]bool{
 	"runtime": true, "os": true, "syscall": true, "time": true, "reflect": true, "fmt": true,
 	"sync": true, "sync/atomic": true, "internal/poll": true, "net": true, "net/http": true,
-	"log": true, "io/fs": true, "internal/godebug": true, "internal/cpu": true,
+	"log": true, "internal/godebug": true, "internal/cpu": true,
 	"github.com/sirupsen/logrus": true, "crypto/rand": true, "math/rand": true, "math/rand/v2": true,
 	"internal/bytealg": true, "unsafe": true, "internal/abi": true, "runtime/debug": true,
-	"os/signal": true, "testing": true, "path/filepath": true, "io": true, "bufio": true,
+	"os/signal": true, "testing": true,
 	"encoding/json": true, "encoding/binary": true, "golang.org/x/sys/unix": true,
 	"github.com/spf13/viper": true, "google.golang.org/protobuf/proto": true,
 }
